@@ -635,26 +635,359 @@ def gen(tier, rng):
         if o[1] not in (0, 6):
             full.append(with_capture(o))
     full += [STRICT(False), STRICT(True)]
-    maxh = 3 if tier == 'quick' else 4
-    for n in range(1, maxh + 1):
-        pool = full if n <= 3 else [o for o in full if not (o[0] and o[1] in (1, 3))]
-        for h in itertools.product(range(len(pool)), repeat=n):
-            if n == 4 and (h[0] * 7 + h[1] * 5 + h[2] * 3 + h[3]) % 3:
-                continue
-            yield ('history_exhaustive', 2, [2, [pool[i] for i in h]])
+    # a smaller pool for the longest histories: the calls that write some cell, and the probes that read it
+    core_pool = [full[i] for i in range(len(full)) if not full[i][0] or full[i][1] in (2, 4)]
+    if tier == 'quick':
+        plan = [(1, full, 1), (2, full, 1), (3, core_pool, 1)]
+    else:
+        plan = [(1, full, 1), (2, full, 1), (3, full, 1), (4, core_pool, 2)]
+    for n, pool, stride in plan:
+        for j, h in enumerate(itertools.product(range(len(pool)), repeat=n)):
+            if j % stride == 0:
+                yield ('history_exhaustive', 2, [2, [pool[i] for i in h]])
     # ---- fn 2: random histories
-    for i in range(1500 if tier == 'quick' else 20000):
+    for i in range(1000 if tier == 'quick' else 20000):
         cap = rng.choice([1, 2, 3, 4, 8, 0])
         yield ('history_random', 2, [cap, rand_history(rng, rng.choice([3, 6, 10, 20, 40]))])
 
 RULE = ('fn 1 (memoize): every key sequence up to the length bound over 4 keys (two returning, one raising a pybtex error, one raising a foreign exception) x capacities 0..3, plus random runs up to capacity 1024 with more distinct keys than the capacity; '
-        'fn 2 (API histories): pinned defect inputs, a history with 1100 fresh format.name$ calls at the shipped capacity, every history up to the length bound over a menu of 13 calls (each also inside errors.capture(), plus set_strict_mode on/off) with cache capacity 2, and random histories up to length 40; every self-contained call is also re-run alone in a reset process state. '
+        'fn 2 (API histories): pinned defect inputs, a history with 1100 fresh format.name$ calls at the shipped capacity, every history of length <= 2 over a menu of 13 calls (each also inside errors.capture(), plus set_strict_mode on/off; 28 in all) and of length 3 (thorough: also every second one of length 4) over the 22 of them that are not capture() variants of state-writing calls, cache capacity 2 (thorough: length 3 over all 28), and random histories up to length 40; every self-contained call is also re-run alone in a reset process state. '
         'distinct = distinct (function, argument); non-trivial = more distinct keys than the capacity (fn 1) / at least two kinds of call (fn 2)')
-EXHAUSTIVE = {'quick': 'memoize: all key sequences of length <= 6 over 4 keys x capacities 0..3; API histories: all sequences of length <= 3 over the 26-call menu',
-              'thorough': 'memoize: all key sequences of length <= 8 over 4 keys x capacities 0..3; API histories: all sequences of length <= 3 and a third of length 4 over the 26-call menu'}
+EXHAUSTIVE = {'quick': 'memoize: all key sequences of length <= 6 over 4 keys x capacities 0..3; API histories: all sequences of length <= 2 over the 28-call menu, all of length 3 over its 22-call core',
+              'thorough': 'memoize: all key sequences of length <= 8 over 4 keys x capacities 0..3; API histories: all sequences of length <= 3 over the 28-call menu, every second one of length 4 over its 22-call core'}
 TRUSTED_BASE = ['modelled (not verified) code: pybtex/utils.py memoize; pybtex/errors.py; pybtex/bibtex/builtins.py _split_names/_format_name/format.name$; pybtex/database/input/bibtex.py month_names, LowLevelParser command level, Parser; pybtex/database/input/__init__.py BaseParser; BibliographyData.add_entry',
                 'the lexical level of .bib files is not modelled: the harness renders tokenised commands to text (harness/props/c18.py render)',
                 'format_bibtex_name (C11) enters the model as a table measured from the real function for the pairs each history reaches']
 ASSUMPTIONS = ['format_bibtex_name(name, format) is a function of its two arguments plus a list of reports (sampled: computed twice per run for every pair used)']
 PARTIAL = ['"formatting or writing a database never modifies it" and determinism across fresh interpreters / hash seeds are checked by the oracle only (extra check real_api_histories), not proved',
            'the .bib lexer, the BST interpreter beyond format.name$, the Python engine and the writers are outside the model: their freedom from global state is tested end to end, not proved']
+
+# ----------------------------------------------------------------------------------------
+# extra check: end-to-end histories on the real public API (oracle only; no model)
+R_BIB = '''@string{m = "Mac"}
+@preamble{"\\\\newcommand{\\\\noop}[1]{}"}
+@article{k1, author = {Ann Lee and Bob von Ray, Jr}, title = {A Title of Things}, year = 1999, month = jan, journal = m}
+@book{k2, author = {Knuth, Donald E.}, editor = {Ed Itor}, title = {The {Art}}, publisher = {AW}, year = 1968, crossref = {k1}}
+@misc{k3, author = {Q R}, title = {Odd}, note = m # " x"}
+'''
+R_BIB2 = '''@string{m = "Other"}
+@string{jan = "Janvier"}
+@preamble{"P2"}
+@article{k1, author = {Zed Zed}, title = {Second}, month = jan, note = m}
+'''
+R_BIB_COMMAS = '@misc{kc, author = {a, b, c, d}, title = {Commas}}\n'
+R_BST = r'''ENTRY { author title year month } { } { label }
+STRINGS { s t }
+INTEGERS { nameptr numnames }
+FUNCTION {format.names}
+{ 's :=
+  #1 'nameptr :=
+  s num.names$ 'numnames :=
+  "" 't :=
+  { nameptr numnames #1 + < }
+  { t s nameptr "{ff~}{vv~}{ll}{, jj}" format.name$ * "; " * 't :=
+    nameptr #1 + 'nameptr := }
+  while$
+  t
+}
+FUNCTION {default.type}
+{ "\bibitem{" cite$ * "}" * write$ newline$
+  author format.names write$ newline$
+  title "t" change.case$ month * write$ newline$ }
+FUNCTION {article} { default.type }
+FUNCTION {book} { default.type }
+FUNCTION {misc} { default.type }
+MACRO {jan} {"January"}
+READ
+ITERATE {call.type$}
+'''
+R_BST_BAD = 'ENTRY { author } { } { label }\nFUNCTION {misc} { undefined.function }\nFUNCTION {article} { undefined.function }\nFUNCTION {book} { undefined.function }\nREAD\nITERATE {call.type$}\n'
+
+def _db_snapshot(db):
+    ents = []
+    for key, e in db.entries.items():
+        ents.append((key, e.key, e.type, getattr(e, 'original_type', None), tuple(e.fields.items()),
+                     tuple((r, tuple(tuple(tuple(x) for x in _person(p)) for p in ps)) for r, ps in e.persons.items())))
+    w = getattr(db, 'wanted_entries', None)
+    return repr((ents, list(db.preamble_list), sorted(w) if w is not None else None, sorted(db.citations), db.min_crossrefs))
+
+class _Env(object):
+    def __init__(self):
+        from pybtex.database import parse_string
+        self.dir = tempfile.mkdtemp(prefix='c18_real_')
+        for name, src in (('small', R_BST), ('bad', R_BST_BAD), ('nomacro', R_BST.replace('MACRO {jan} {"January"}\n', ''))):
+            with open(os.path.join(self.dir, name + '.bst'), 'w') as f:
+                f.write(src)
+        self.bst = os.path.join(self.dir, 'small')
+        self.badbst = os.path.join(self.dir, 'bad')
+        self.nomacro = os.path.join(self.dir, 'nomacro')
+        self.db = parse_string(R_BIB, 'bibtex')
+        self.texts = {f: self.db.to_string(f) for f in ('bibtex', 'yaml', 'bibtexml')}
+        self.snap0 = _db_snapshot(self.db)
+        self.fresh = 0
+        d = os.path.join(REPO, 'tests', 'data')
+        self.unsrt = os.path.join(d, 'unsrt') if os.path.exists(os.path.join(d, 'unsrt.bst')) else None
+        self.modified = []
+    def close(self):
+        shutil.rmtree(self.dir, ignore_errors=True)
+    def guard(self, what):
+        if _db_snapshot(self.db) != self.snap0:
+            self.modified.append(what)
+            self.snap0 = _db_snapshot(self.db)
+
+def _dg(v):
+    return hashlib.sha1(repr(v).encode('utf-8', 'replace')).hexdigest()[:16]
+
+def _r_parse(fmt, text=None):
+    def f(env):
+        from pybtex.database import parse_string
+        return _dg(_db_snapshot(parse_string(text if text is not None else env.texts[fmt], fmt)))
+    return f
+def _r_write(fmt):
+    def f(env):
+        s = env.db.to_string(fmt); env.guard('to_string(%r)' % fmt)
+        return _dg(s)
+    return f
+def _r_format_py(style, backend, **kw):
+    def f(env):
+        import pybtex
+        return _dg(pybtex.format_from_string(R_BIB, style=style, output_backend=backend, **kw))
+    return f
+def _r_format_py_db(env):
+    from pybtex.plugin import find_plugin
+    style = find_plugin('pybtex.style.formatting', 'alpha')()
+    fb = style.format_bibliography(env.db); env.guard('format_bibliography')
+    out = io.StringIO()
+    find_plugin('pybtex.backends', 'html')().write_to_stream(fb, out); env.guard('backend.write_to_stream')
+    return _dg(out.getvalue())
+def _r_format_bst(bib, which='bst', capture=False):
+    def f(env):
+        import pybtex.bibtex, pybtex.errors as E
+        style = getattr(env, which)
+        if capture:
+            with E.capture() as errs:
+                r = pybtex.bibtex.format_from_string(bib, style=style)
+            return _dg((r, [type(e).__name__ for e in errs]))
+        return _dg(pybtex.bibtex.format_from_string(bib, style=style))
+    return f
+def _r_fresh_names(n):
+    def f(env):
+        from pybtex.bibtex.interpreter import Interpreter
+        it = Interpreter(None, None)
+        out = []
+        for i in range(n):
+            env.fresh += 1
+            it.push('First%d Last%d' % (env.fresh, env.fresh)); it.push(1); it.push('{ll}, {f.}')
+            it.vars['format.name$'].execute(it)
+            out.append(it.pop())
+        return _dg(len(out))
+    return f
+def _r_name_probe(env):
+    from pybtex.bibtex.interpreter import Interpreter
+    it = Interpreter(None, None)
+    it.push('Ann Lee and Bob von Ray, Jr'); it.push(2); it.push('{vv~}{ll}{, jj}{, f.}')
+    it.vars['format.name$'].execute(it)
+    return _dg(it.pop())
+def _r_fail_captured(env):
+    import pybtex.errors as E
+    from pybtex.database import parse_string
+    with E.capture() as errs:
+        db = parse_string('@article{k, title = }\n@book{k, author = {a, b, c, d}, x = undefinedmacro}', 'bibtex')
+    return _dg((_db_snapshot(db), [type(e).__name__ for e in errs]))
+def _r_strict(b):
+    def f(env):
+        import pybtex.errors as E
+        E.set_strict_mode(b)
+        return 'ok'
+    return f
+def _r_lowlevel(env):
+    from pybtex.database.input import bibtex as bt
+    p = bt.Parser()
+    return _dg(list(bt.LowLevelParser('@string{jan = "X"} @a{k, t = jan}', macros=p.macros)))
+
+REAL_CALLS = collections.OrderedDict([
+    ('parse_bibtex', _r_parse('bibtex', R_BIB)), ('parse_bibtex_other', _r_parse('bibtex', R_BIB2)),
+    ('parse_yaml', _r_parse('yaml')), ('parse_bibtexml', _r_parse('bibtexml')),
+    ('write_bibtex', _r_write('bibtex')), ('write_yaml', _r_write('yaml')), ('write_bibtexml', _r_write('bibtexml')),
+    ('format_py_unsrt_latex', _r_format_py('unsrt', 'latex')), ('format_py_plain_text', _r_format_py('plain', 'text')),
+    ('format_py_alpha_markdown', _r_format_py('alpha', 'markdown', abbreviate_names=True)),
+    ('format_py_db_alpha_html', _r_format_py_db),
+    ('format_bst_small', _r_format_bst(R_BIB)), ('format_bst_small_captured', _r_format_bst(R_BIB, capture=True)),
+    ('format_bst_other', _r_format_bst(R_BIB2)), ('format_bst_commas_captured', _r_format_bst(R_BIB_COMMAS, capture=True)),
+    ('format_bst_unsrt', _r_format_bst(R_BIB, which='unsrt')),
+    ('format_bst_nomacro', _r_format_bst(R_BIB, which='nomacro')),   # the style defines no month macros: 'jan' is undefined, the run fails
+
+    ('fresh_names_1100', _r_fresh_names(1100)), ('fresh_names_5', _r_fresh_names(5)), ('name_probe', _r_name_probe),
+    ('fail_parse', _r_parse('bibtex', '@article{k, title = }')), ('fail_parse_undefined_macro', _r_parse('bibtex', '@a{k, t = nosuchmacro}')),
+    ('fail_parse_captured', _r_fail_captured), ('fail_style', _r_format_py('nosuchstyle', 'latex')),
+    ('fail_bst', _r_format_bst(R_BIB, which='badbst')), ('fail_yaml', _r_parse('yaml', 'entries: [: : :')),
+    ('nonstrict', _r_strict(False)), ('strict', _r_strict(True)), ('lowlevel_with_reader_macros', _r_lowlevel),
+])
+REAL_PROBES = ['parse_bibtex', 'parse_yaml', 'write_bibtex', 'write_bibtexml', 'format_py_unsrt_latex', 'format_py_db_alpha_html',
+               'format_bst_small', 'format_bst_small_captured', 'format_bst_nomacro', 'name_probe', 'fail_parse_captured']
+
+def _r_call(env, name):
+    import pybtex.io
+    from pybtex.exceptions import PybtexError
+    f = REAL_CALLS[name]
+    if name == 'format_bst_unsrt' and not env.unsrt:
+        return 'skipped'
+    buf = io.StringIO(); old = pybtex.io.stderr; pybtex.io.stderr = buf
+    try:
+        try:
+            r = f(env)
+        except PybtexError as e:
+            r = 'PybtexError:' + type(e).__name__
+        except Exception as e:
+            r = 'Exception:' + type(e).__name__
+    finally:
+        pybtex.io.stderr = old
+    return (r, buf.getvalue().count('WARNING: '))
+
+def _fresh_main():
+    """run in a fresh interpreter (another hash seed): every probe once, printed as JSON"""
+    env = _Env()
+    try:
+        print(json.dumps({p: _r_call(env, p) for p in REAL_PROBES}))
+    finally:
+        env.close()
+
+def _run_real(history, probe):
+    """-> list of failure strings"""
+    import pybtex.errors as E
+    from pybtex.database.input import bibtex as bt
+    from pybtex.bibtex import builtins as B
+    _reset(None)
+    env = _Env()
+    fails = []
+    try:
+        def probe_value():
+            # the probe is a fixed computation, reporting mode included (the mode is a documented
+            # setting that histories may switch): evaluate it in strict mode, then put the mode back
+            saved = E.strict
+            E.set_strict_mode(True)
+            try:
+                return _r_call(env, probe)
+            finally:
+                E.set_strict_mode(saved)
+        vals = [probe_value()]
+        for name in history:
+            _r_call(env, name)
+            vals.append(probe_value())
+        for i, v in enumerate(vals[1:]):
+            if v != vals[0]:
+                fails.append('probe %s gives %r after call %d (%s), %r at the start' % (probe, v, i, history[i], vals[0]))
+                break
+        if dict(bt.month_names) != MONTHS:
+            fails.append('the predefined month macros were altered: %r' % sorted(set(bt.month_names.items()) ^ set(MONTHS.items()))[:4])
+        if E.captured_errors is not None:
+            fails.append('errors.captured_errors still set')
+        if env.modified:
+            fails.append('a database was modified by %s' % env.modified[0])
+        for f in (B._format_name, B._split_names):
+            c = _memo_cells(f)
+            if c and (list(c[0].keys()) != list(c[1]) or (c[2] is not None and len(c[1]) > c[2].cell_contents)):
+                fails.append('name cache out of shape: %d keys, %d in history' % (len(c[0]), len(c[1])))
+        return fails, vals[0]
+    finally:
+        env.close()
+        _reset(None)
+
+def _real_worker(job):
+    try:
+        fails, v0 = _run_real(job[0], job[1])
+        if fails:      # shrink: drop calls while it still fails
+            h = list(job[0])
+            i = 0
+            while i < len(h):
+                h2 = h[:i] + h[i + 1:]
+                f2, _ = _run_real(h2, job[1])
+                if f2:
+                    h = h2; fails = f2
+                else:
+                    i += 1
+            return (h, job[1], fails, v0)
+        return (job[0], job[1], [], v0)
+    except BaseException as e:
+        return (job[0], job[1], ['harness error %r %s' % (e, traceback.format_exc()[-600:])], None)
+
+def extra_checks(ck, tier, rng):
+    # 1. purity of the un-memoised name formatter (the model's assumption), sampled
+    import pybtex.errors as E
+    from pybtex.bibtex.names import format_name as fbn
+    n = 0; fails = []
+    for name in NAMEPOOL + ['a, b, c, d', 'N1 L1']:
+        for fmt in FMTS:
+            rs = []
+            for _ in range(2):
+                with E.capture() as errs:
+                    r = call_impl(fbn, name, fmt)
+                rs.append((r, [_errcode(e) for e in errs]))
+            n += 1
+            if rs[0] != rs[1]:
+                fails.append(('format_bibtex_name(%r, %r)' % (name, fmt), 'two calls differ: %r' % (rs,), True))
+    yield {'name': 'name_formatter_is_a_function', 'evaluations': n, 'failures': fails, 'info': 'assumption of the model (fmt table)'}
+    # 2. end-to-end histories
+    names = list(REAL_CALLS)
+    jobs = []
+    for p in REAL_PROBES:                     # every call followed by every probe; every ordered pair before a probe (thorough)
+        for a in names:
+            jobs.append(([a], p))
+    if tier == 'thorough':
+        for p in REAL_PROBES[::2]:
+            for a in names:
+                for b in names:
+                    if 'fresh_names_1100' not in (a, b):
+                        jobs.append(([a, b], p))
+    for i in range(60 if tier == 'quick' else 1500):
+        h = [rng.choice(names) for _ in range(rng.choice([3, 5, 8]))]
+        while h.count('fresh_names_1100') > 1:
+            h.remove('fresh_names_1100')
+        jobs.append((h, rng.choice(REAL_PROBES)))
+    ctx = mp.get_context('fork')
+    with ctx.Pool(min(NPROC, 16)) as pool:
+        res = pool.map(_real_worker, jobs, chunksize=4)
+    fails = []
+    base = {}
+    for h, p, fl, v0 in res:
+        if v0 is not None:
+            base.setdefault(p, set()).add(json.dumps(v0))
+        for f in fl[:1]:
+            fails.append(('history %r then probe %s' % (h, p), f, True))
+    # 3. the same probes in a fresh interpreter under another hash seed
+    env = dict(os.environ); env['PYTHONHASHSEED'] = '4242'
+    pr = subprocess.run([sys.executable, '-B', '-c', 'import props.c18 as m; m._fresh_main()'], capture_output=True, text=True, env=env, timeout=600)
+    nfresh = 0
+    try:
+        fresh = json.loads(pr.stdout.strip().splitlines()[-1])
+        for p, v in fresh.items():
+            nfresh += 1
+            got = base.get(p, set())
+            if got and got != {json.dumps(v)}:
+                fails.append(('probe %s in a fresh interpreter (PYTHONHASHSEED=4242)' % p, 'gives %r, in this process %r' % (v, sorted(got)[:2]), True))
+    except Exception as e:
+        fails.append(('fresh interpreter run', 'failed: %r %s' % (e, pr.stderr[-400:]), False))
+    yield {'name': 'real_api_histories', 'evaluations': len(jobs) + nfresh, 'failures': fails[:6],
+           'info': 'calls: %s; probes: %s; each probe repeated after every call of the history and compared with its first value and with a fresh interpreter under another hash seed; month_names, captured_errors, cache shape and a long-lived database snapshot checked after every history' % (', '.join(names), ', '.join(REAL_PROBES))}
+    # 4. F19 through the public API (known finding): the same BibTeX-engine run twice inside capture()
+    import pybtex.bibtex
+    _reset(None)
+    env2 = _Env()
+    try:
+        counts = []
+        for _ in range(2):
+            with E.capture() as errs:
+                pybtex.bibtex.format_from_string(R_BIB_COMMAS, style=env2.bst)
+            counts.append(len(errs))
+    finally:
+        env2.close(); _reset(None)
+    f19 = [('pybtex.bibtex.format_from_string(%r, style=<small .bst>) twice inside errors.capture()' % R_BIB_COMMAS,
+            'F19-shape: reported problems %r' % counts, True)] if counts[0] != counts[1] else []
+    yield {'name': 'f19_public_api', 'evaluations': 2, 'failures': f19, 'info': 'reported problems per run: %r' % counts}
+
+_old_sig = KNOWN_SIGNATURES['F19']
+def _sig_f19(kind, fn, arg, detail):
+    if kind == 'extra':
+        return fn == 'f19_public_api' and isinstance(detail, str) and detail.startswith('F19-shape')
+    return _old_sig(kind, fn, arg, detail)
+KNOWN_SIGNATURES['F19'] = _sig_f19
